@@ -10,6 +10,7 @@ import (
 )
 
 type ad struct {
+	held func(func(int) bool)
 	l     *listz.SList[int]
 	spare *listz.SNode[int] // node returned by the last Remove: re-inserted through the node forms
 	flip  int
@@ -23,6 +24,7 @@ func (x *ad) Reset(s json.RawMessage) error {
 		x.l = new(listz.SList[int]) // zero value is ready to use
 	}
 	x.spare = nil
+	x.held = heldAll(x.l)
 	return nil
 }
 
@@ -99,7 +101,7 @@ func (x *ad) Obs() interface{} {
 	for e, i := x.l.Front(), 0; e != nil && i < 1000; e, i = e.Next(), i+1 {
 		seq = append(seq, e.Value)
 	}
-	return map[string]interface{}{"len": x.l.Len(), "front": nodeRes(x.l.Front()), "back": nodeRes(x.l.Back()), "seq": seq}
+	return map[string]interface{}{"len": x.l.Len(), "front": nodeRes(x.l.Front()), "back": nodeRes(x.l.Back()), "seq": seq, "all": rangeAll(x.held, seq)}
 }
 func (x *ad) Struct() interface{} { return x.Obs() }
 func (x *ad) Drain() interface{} {
